@@ -226,7 +226,8 @@ def run(ctx: Ctx):
                 except carith.UB as u:
                     any_ub = True
                     expect.append((kind, name, None, e))
-            ctx.evaluations += 1
+            ctx.count("runs")
+            ctx.evaluations += len(expect)       # a case = one (expression, context, variable valuation)
             if run_.abort:
                 if any_ub:
                     ctx.count("runs_with_user_ub_aborted")
